@@ -78,7 +78,7 @@ def both(ops):
 # =============================================================================== C10
 def check_c10(tier, seed, replay=None):
     run, broken = base_run("C10", tier, seed,
-        "inputs: every .bop under testdata (valid and invalid); all strings of <= 3 tokens over a 42-token alphabet; each of the 256 byte values in 18 grammar contexts; every pair punctuation byte x printable byte "
+        "inputs: every .bop under testdata (valid and invalid); all strings of <= 3 tokens over a 42-token alphabet; each of the 256 byte values in 18 grammar contexts; ten texts with comments trailing the entries of every construct cut at EVERY byte offset (clean end, reader failure, unterminated / unreadable token after the prefix); every pair punctuation byte x printable byte "
         "(thorough: every printable pair, also inside a struct body); generated schema texts and byte-level mutations of them "
         "(delete / insert / replace / truncate); each also with the reader failing (non-EOF error) at sampled offsets, short files at EVERY offset. Required of ReadFile: returns "
         "(no panic, no hang); a reader failure before the end gives an error; if it reports success on x then x + one more valid struct gives an error or a File containing that struct. "
@@ -148,6 +148,20 @@ def check_c10(tier, seed, replay=None):
             inputs.append((bytes([a, bb]), -1, "byte-pair"))
             if tier == "thorough":
                 inputs.append((b"struct A { int32 " + bytes([a, bb]) + b" x; }", -1, "byte-pair"))
+    # every construct with comments trailing its entries, cut at EVERY byte offset: the end of the input (clean, or a reader failure) and an
+    # unterminated / unreadable token directly after every prefix - wherever a look-ahead for "the rest of this line" can run off the end
+    cover = ['const int32 a = 1; /* t */ // e\n', 'struct A { int32 a; /* c */ /* d */\n int32 b; /* c */ }\n', 'enum E { A = 1; /* c */\n B = 2; // e\n}\n',
+             'message M { 1 -> int32 a; /* c */\n}\n', 'union U { 1 -> struct A { int32 x; /* c */ } /* d */\n 2 -> message B { } // e\n}\n',
+             '[opcode("abcd")] /* c */\nstruct S { } /* t */', '[flags] enum F { A = 1 << 1; /* c */ B = (A | 2); }', 'import "x.bop" /* c */\n',
+             'struct A { [deprecated("x")] /* c */ int32 a; map[string, int32[]] m; /* t */ }', 'readonly struct R { guid g; } /* c */ enum E : uint8 { A = 1; } /* d */']
+    for t in cover:
+        tb = t.encode()
+        for k in range(len(tb) + 1):
+            inputs.append((tb, k, "cut-cover"))
+            inputs.append((tb[:k], -1, "cut-cover"))
+            if tier == "thorough" or k % 2 == 0 or tb[max(0, k - 2):k] == b"*/":
+                for suf in (b"/*", b'"', b"\xa7", b"  ", b"/* c */", b"/* c */ "):
+                    inputs.append((tb[:k] + suf, -1, "cut-cover"))
     # special: things known to matter
     for s in ["[flags] enum E:int32 {A = 1 << -1;}", "struct A{int32 a;}\n$ struct B{}", "struct A{}\n/* open", "struct A{}\n\"open", "/* c */", "struct A{}/* c */",
               "enum E { A = 1; } /*/", "/*/", "message s{/*/ //e", "[flags]\nenum F { A = 1; B = A | 1; }\nstruct X { int32 a; }", "", "\n", "import \"a.bop\""]:
